@@ -1,5 +1,5 @@
 # C09 — Restart independence: results do not depend on where the daemon was restarted.
-from . import ledger, runprop
+from . import ledger, runprop, c18
 
 
 def restarts(ctx, scenarios, at):
@@ -26,12 +26,24 @@ def restarts(ctx, scenarios, at):
 def run(ctx):
     ctx.coverage["rule"] = (ledger.rule("C09") + "; plus, on the real daemon: one continuous run against runs that stop cleanly and start a fresh process "
                             "at every height of the chain (each restart height is a distinct non-trivial case: the chains have blocks without rates inside the averaging window "
-                            "and conversions priced by the average)")
+                            "and conversions priced by the average); and a daemon serving API requests, some of them aborted by the client, against one serving none")
     ctx.proof_stage()
     ledger.run(ctx)
     restarts(ctx, ["gaps"] if ctx.tier == "quick" else ["gaps", "eras", "admission", "staking"], "all")
+    served(ctx)
+
+
+def served(ctx):
+    """In-memory state accumulated since process start also comes from the API: a daemon that served
+    requests (rich lists rebuild the average cache; some clients hang up mid-request) must compute the
+    ledger of one that served none."""
+    before = len(ctx.violations)
+    c18.apiload(ctx, ["gaps"], 8, False, status=False)
+    return len(ctx.violations) > before
 
 
 def search(ctx, why):
     ledger.run(ctx)
-    return restarts(ctx, ["gaps", "eras"], "all")
+    a = restarts(ctx, ["gaps", "eras"], "all")
+    b = served(ctx)
+    return a or b
